@@ -13,7 +13,7 @@ import random
 
 from vlib import e2e, engine, gen, netsynth as ns, outparse, quicsynth, scene, tcpcap, tlssynth
 
-KINDS = ["delete", "cut", "keys", "keys-cut", "wrongkeys", "suite", "flip", "overwrite", "shorten", "noise-http", "noise-udp", "noise-udp-short"]
+KINDS = ["delete", "cut", "keys", "keys-cut", "cbc-pad", "wrongkeys", "suite", "flip", "overwrite", "shorten", "noise-http", "noise-udp", "noise-udp-short"]
 UNKNOWN_SUITES = [0x0A0A, 0x0000, 0xFFFF, 0xC03C, 0x0001, 0x1306, 0x5600, 0xFAFA]
 
 
@@ -109,7 +109,7 @@ def build(tier, seed):
     return dict(cases=cases, evalfn=evalfn, level="fault_enumeration", min_nontrivial=60, extra=extra,
                 rule="per scene and fault kind (every sixth scene has a long victim: 180-360 short records, so that much piles up behind a fault): delete each victim packet; cut before each packet; every subset of the victim's key-log lines (TLS 1.3/QUIC all 2^4-2^5 "
                      "subsets, <=1.2 present/absent); the key log cut inside one of the victim's lines; secrets replaced by random ones; ServerHello suite id replaced by 8 unknown/unsupported/GREASE values; bit flip at every "
-                     "byte of the handshake packets and at sampled bytes elsewhere; overwrite; shorten; plain HTTP on 443; UDP payloads with every first byte x lengths "
+                     "byte of the handshake packets and at sampled bytes elsewhere; all 256 values of the padding-length-controlling ciphertext byte of a protected CBC record; overwrite; shorten; plain HTTP on 443; UDP payloads with every first byte x lengths "
                      "1..1500 and all lengths 1..8, with and without -a. Class = (victim kind, fault kind, position class, outcome); non-trivial = the fault run completed "
                      "and bystanders/victim were compared against the fault-free run of the same scene",
                 assumptions=["fault-free run of the scene is exact (checked per scene; otherwise inconclusive)"])
@@ -235,6 +235,34 @@ def eval_case(case, seed, thorough):
                 return bytes(p)
             newit = reframe(it, vep, mod)
             faults.append((f"{kind} in payload of packet {i} ({'handshake' if i in hs_idx else 'data'})", items[:i] + [newit] + items[i + 1:], keys, [], "ab"))
+    elif kind == "cbc-pad":
+        # corrupted records, enumerated where a CBC receiver is most sensitive: every value of the ciphertext byte that is XORed into the padding-length
+        # byte of a protected record (TLExport checks neither MAC nor padding, so that byte alone decides how many bytes 'decrypt' returns: 0, 1, 2, ...)
+        if victim.kind == "tls" and victim.conn.params["mode"] == "CBC" and (thorough or case["scene"] % 3 == 0):
+            conn, blk = victim.conn, victim.conn.params["block"]
+            ccs, targets = set(), []
+            for e in conn.events:
+                if e.kind == "ccs":
+                    ccs.add(e.dir)
+                elif e.dir in ccs and len(e.wire) - 5 >= 2 * blk:
+                    targets.append(e)
+            pick = [e for e in targets if e.kind == "alert"][:1] + [e for e in targets if e.kind == "hs"][:1] + [e for e in targets if e.kind == "app"][-1:]
+            for e in pick[: 4 if thorough else 1]:
+                tails = {0, conn.params["mac_len"]} if conn.spec.etm else {0}
+                for tail in sorted(tails):
+                    pos = e.woff + len(e.wire) - tail - blk - 1
+                    hit = [i for i in vidx if items[i].seg.dir == e.dir and not items[i].seg.dup and items[i].seg.woff <= pos < items[i].seg.woff + len(items[i].seg.payload)]
+                    if not hit or pos < e.woff + 5:
+                        continue
+                    i = hit[0]
+                    j = pos - items[i].seg.woff
+                    orig = items[i].seg.payload[j]
+                    for val in range(256):
+                        if val == orig:
+                            continue
+                        newit = reframe(items[i], vep, lambda pl, j=j, val=val: pl[:j] + bytes([val]) + pl[j + 1:])
+                        faults.append((f"byte before the last cipher block of the victim's protected {e.kind} record ({'client' if e.dir == 'c' else 'server'}, {len(e.wire)} bytes on the wire"
+                                       f"{', EtM' if tail else ''}) overwritten: {orig:#04x} -> {val:#04x}", items[:i] + [newit] + items[i + 1:], keys, [], "ab"))
     elif kind == "noise-http":
         for rep in range(3):
             nf = scene.http_on_443(frng, rep, v6=frng.random() < 0.5)
